@@ -455,6 +455,27 @@ LONG_INTEGER_TEXTS = (
 )
 
 
+def _callee_name(prog, f, c):
+    """The function a callee term denotes: a reference, or a module constant `functools.partial(<function>, ...)`."""
+    import ast as _ast
+
+    rn = T.refname(c)
+    if rn and rn.startswith(f.module.name + "."):
+        v = f.module.assigns.get(rn.rsplit(".", 1)[1])
+        if isinstance(v, _ast.Call) and prog.resolve_expr_name(f.module, v.func) == "functools.partial" and v.args:
+            return prog.resolve_expr_name(f.module, v.args[0])
+    return rn
+
+
+def _callees_of(prog, f, c, conds=()):
+    """(conditions, function) for every function the callee term may denote: `(a if c else b)(x)` calls a under c, b otherwise."""
+    if c[0] == "ifexp":
+        yield from _callees_of(prog, f, c[2], conds + ((c[1], True),))
+        yield from _callees_of(prog, f, c[3], conds + ((c[1], False),))
+    else:
+        yield conds, _callee_name(prog, f, c)
+
+
 def long_integers_exact(prog, rep, rule="R14.4"):
     """The default JSON backend (orjson, when installed) reads an integer outside the 64-bit range as a *float* instead of
     refusing it, so the exact literal parser behind it is never asked.  Where typelib.py.compat may bind `json` to orjson, the
@@ -479,11 +500,17 @@ def long_integers_exact(prog, rep, rule="R14.4"):
                 env0[("ref", f"{f.module.name}.{nm}")] = _re.compile(v.args[0].value)
             except _re.error:
                 pass
-    exact_paths = []
+    callees = lambda c: _callees_of(prog, f, c)  # noqa: E731
+
+    exact_paths = []  # the guard lists under which the standard decoder reads the text
     for p, r in P.returns(P.paths_of(prog, f)):
-        if r[0] == "call" and T.refname(r[1]) == "json.loads" and r[2][:1] == (val,) and any(T.contains(g, lambda x: x == val) for g, _ in p.guards()):
-            exact = True
-            exact_paths.append(p)
+        if r[0] != "call" or r[2][:1] != (val,):
+            continue
+        for conds, name in callees(r[1]):
+            gs = list(p.guards()) + list(conds)
+            if name == "json.loads" and any(T.contains(g, lambda x: x == val) for g, _ in gs):
+                exact = True
+                exact_paths.append(gs)
     # every text with an integer the fast decoder cannot hold (below -2**63, from 2**64) takes one of those paths, wherever
     # in the text the numeral stands: the routing conditions are interpreted on witness texts
     missed = []
@@ -493,7 +520,7 @@ def long_integers_exact(prog, rep, rule="R14.4"):
             routed = False
             for p in exact_paths:
                 try:
-                    if all(bool(T.ceval(g, {**env0, val: w})) == pol for g, pol in p.guards()):
+                    if all(bool(T.ceval(g, {**env0, val: w})) == pol for g, pol in p):
                         routed = True
                         break
                 except T.Undecidable as e:
@@ -525,7 +552,7 @@ def r14_4(prog, rep):
             continue
         r = p.exit[1]
         suppressed = P.abandoned(p)
-        if r[0] == "call" and (T.refname(r[1]) or "").endswith(".loads") and r[2] in ((val,), (dec,)) and not suppressed:
+        if r[0] == "call" and all((name or "").endswith(".loads") for _c, name in _callees_of(prog, f, r[1])) and r[2] in ((val,), (dec,)) and not suppressed:
             json_first = True
         if T.is_call_to(r, "ast.literal_eval") and len(suppressed) == 1:
             lit_second = r[2] == (dec,)
